@@ -31,8 +31,11 @@ TInit == /\ l = 1 /\ reg = [r \in Regs |-> Undef] /\ plain = [r \in Regs |-> 0]
 
 \* frame: every register other than the destination still has the phase the model holds for it
 Frame(d) == /\ Ev.rng = 1
-            /\ \A r \in Regs \ {d} : Def(r) => Ev.regs[r + 1] = Phase(r)
-            /\ Ev.regs[d + 1] = Ev.out
+            /\ IF Len(Ev.regs) > 0
+               THEN /\ \A r \in Regs \ {d} : Def(r) => Ev.regs[r + 1] = Phase(r)
+                    /\ Ev.regs[d + 1] = Ev.out
+               ELSE \* events recorded by the LD_PRELOAD shim from an unmodified program: only the sources' phases before the call are known
+                    \A k \in 1..Len(Ev.src) : Def(Ev.src[k][1]) /\ Phase(Ev.src[k][1]) = Ev.src[k][2]
 ClassOf(srcs) == IF \E s \in srcs : noisy[s] THEN "noisy"
                  ELSE IF \A s \in srcs : depth[s] = 0 THEN "fresh"
                  ELSE IF \E s \in srcs : depth[s] >= 10 THEN "deep" ELSE "mid"
